@@ -48,12 +48,21 @@ def gen_case(rng, what):
         sel = [rng.randrange(n) for _ in range(rng.randint(1, n + 1))]
     # a third of the cases use a single-output model (regression / one logit): predictions and targets of shape (N, 1)
     nout = 1 if (what != "MuFidelityExact" and rng.random() < 0.34) else 3
-    return dict(what=what, n=n, bss=bss, sel=sel, seed=rng.randrange(1 << 30), model_seed=rng.randrange(1 << 30), nout=nout)
+    # variant 1: the same method with NON-default secondary arguments (other kernel / distance mode, overlapping patches,
+    # other baseline, other estimator ...): batching must be transparent for those too
+    return dict(what=what, n=n, bss=bss, sel=sel, seed=rng.randrange(1 << 30), model_seed=rng.randrange(1 << 30), nout=nout,
+                variant=rng.randint(0, 1))
 
 
 def generate(rng, tier):
     reps = 2 if tier == "quick" else 12
-    return [gen_case(rng, w) for _ in range(reps) for w in DETERMINISTIC + SAMPLING + METRICS + METRICS]
+    cases = []
+    for r in range(reps):
+        for w in DETERMINISTIC + SAMPLING + METRICS + METRICS:
+            c = gen_case(rng, w)
+            c["variant"] = r % 2          # every method is run with its default-like and its non-default argument set
+            cases.append(c)
+    return cases
 
 
 def nontrivial(case):
@@ -99,9 +108,29 @@ def block_map(inp):
     return tf.cast(ii * ((w + 1) // 2) + jj, tf.int32)
 
 
-def build(what, model, bs, x, t):
+def build(what, model, bs, x, t, variant=0):
     import xplique.attributions as A
     import xplique.metrics as M
+    if variant:
+        import xplique.attributions.global_sensitivity_analysis as G
+        if what == "IntegratedGradients":
+            return A.IntegratedGradients(model, batch_size=bs, steps=3, baseline_value=0.5)
+        if what == "Occlusion":
+            return A.Occlusion(model, batch_size=bs, patch_size=(3, 2), patch_stride=(1, 2), occlusion_value=0.5)
+        if what == "Sobol":
+            return A.SobolAttributionMethod(model, batch_size=bs, grid_size=3, nb_design=4, perturbation_function="blurring")
+        if what == "HSIC":
+            return A.HsicAttributionMethod(model, batch_size=bs, grid_size=3, nb_design=8, estimator=G.RbfEstimator(),
+                                           sampler=G.HaltonSequence(binary=False))
+        if what == "Lime":
+            return A.Lime(model, batch_size=bs, nb_samples=20, map_to_interpret_space=block_map, distance_mode="cosine",
+                          kernel_width=0.5)
+        if what == "KernelShap":
+            return A.KernelShap(model, batch_size=bs, nb_samples=14, map_to_interpret_space=block_map, ref_value=np.array([0.5], np.float32))
+        if what in ("Deletion", "Insertion"):
+            return getattr(M, what)(model, x, t, batch_size=bs, steps=-1, baseline_mode=0.5, max_percentage_perturbed=0.5)
+        if what == "MuFidelity":
+            return M.MuFidelity(model, x, t, batch_size=bs, grid_size=2, nb_samples=6, subset_percent=0.5, baseline_mode=0.5)
     if what == "Saliency":
         return A.Saliency(model, batch_size=bs)
     if what == "GradientInput":
@@ -166,7 +195,7 @@ def run_impl(case):
         outs = {}
         for bs in case["bss"]:
             seeded(case["seed"])
-            obj = build(what, model, bs, x, t)
+            obj = build(what, model, bs, x, t, case.get("variant", 0))
             seeded(case["seed"] + 1)
             if what in METRICS:
                 o = np.asarray(obj.evaluate(expl), dtype=np.float64).reshape(-1)
@@ -179,7 +208,7 @@ def run_impl(case):
             idx = case["sel"]
             bs = case["bss"][0]
             seeded(case["seed"])
-            obj = build(what, model, bs, x[idx], t[idx])
+            obj = build(what, model, bs, x[idx], t[idx], case.get("variant", 0))
             seeded(case["seed"] + 1)
             o = np.asarray(obj.explain(x[idx], t[idx]), dtype=np.float64)
             ref = outs[str(bs)][idx]
@@ -192,7 +221,7 @@ def run_impl(case):
     ref = outs[keys[0]]
     agree = {}
     for k in keys[1:]:
-        agree[k] = bool(outs[k].shape == ref.shape and np.allclose(outs[k], ref, rtol=2e-5, atol=2e-6, equal_nan=False))
+        agree[k] = bool(outs[k].shape == ref.shape and np.allclose(outs[k], ref, rtol=2e-5, atol=2e-6, equal_nan=True))
     finite = all(bool(np.all(np.isfinite(v))) for v in outs.values())
     exact_one = None
     if what == "MuFidelityExact":
@@ -204,7 +233,9 @@ def run_impl(case):
 
 
 def coq_term(case, res):
-    ok = all(res["agree"].values()) and res["finite"] and res["selection_ok"] and res["mufidelity_is_one"] in (None, True)
+    # NaN at the same positions for every batch size (Sobol / HSIC on an input whose scores do not vary: 0/0, outside the
+    # property) counts as equal; finiteness is C12's business and only recorded here
+    ok = all(res["agree"].values()) and res["selection_ok"] and res["mufidelity_is_one"] in (None, True)
     return core.cbool(bool(ok))
 
 
